@@ -23,7 +23,7 @@ V(c) == {<<E.t, E.i, c>>}
 When(cond, c) == IF cond THEN V(c) ELSE {}
 Last(s) == s[Len(s)]
 StartOf(offs, j) == IF j = 1 THEN 0 ELSE offs[j - 1]
-Insufficient == "kafka: insufficient data to decode packet, more bytes expected"
+Insufficient == "insufficient"   \* (the harness names ErrInsufficientData by identity, not by its wording)
 
 (* ---------------------------------------------------------------- part 1: programs *)
 ProgClauses ==
